@@ -214,6 +214,14 @@ def shapeStmt : Stmt → Option Shape
 def shapeFile (s : Stmt) : Option Shape :=
   (shapeStmt s).map (fun sh => .node "file" [.node "statement" [sh]])
 
+/-- dialect statement types that stand for a core statement type and are claimed by the SAME extractor (proved over the
+    regenerated dispatch table in `Props.C09.alias_same_extractor`): postgres / greenplum / redshift / vertica CTAS -/
+def stmtTypeAliases : List (String × String) := [("create_table_as_statement", "create_table_statement")]
+
+/-- dialect statement types that stand for a core statement type but are claimed by NO extractor (finding K3, impala CTAS;
+    `Props.C09.dev_K3_unclaimed`) -/
+def stmtTypeUnclaimed : List (String × String) := [("create_table_as_select_statement", "create_table_statement")]
+
 /-- the segment type the shape has at the statement node -/
 def rootType : Shape → String
   | .node t _ => t
